@@ -98,10 +98,13 @@ mod imp {
         case: &RtCase,
         case_line: &str,
     ) -> std::io::Result<()> {
+        // The CASE line reaches the file before the case runs: if a library call never returns, the
+        // last line of the file names the case.
+        writeln!(out, "{case_line}")?;
+        out.flush()?;
         let t0 = Instant::now();
         let res = run_rt_case(case);
         let micros = t0.elapsed().as_micros();
-        writeln!(out, "{case_line}")?;
         for l in &res.lines {
             writeln!(out, "{l}")?;
         }
